@@ -308,9 +308,15 @@ var cacheDocs = []string{
 	"<mjml><mj-body><mj-section><mj-column><mj-raw><!-- caf\xe9 --></mj-raw><mj-text>L1</mj-text></mj-column></mj-section></mj-body></mjml>",
 	"<mjml><mj-body><mj-section><mj-column><mj-raw><!-- caf\xe8 --></mj-raw><mj-text>L1</mj-text></mj-column></mj-section></mj-body></mjml>",
 	"<mjml><mj-body><mj-section><mj-column><mj-raw><!-- caf\uFFFD --></mj-raw><mj-text>L1</mj-text></mj-column></mj-section></mj-body></mjml>",
+	// white space that is content: nothing but a blank or a line break between two inline elements inside the components that
+	// re-serialise their content (button, navbar link, social element, accordion title / text) — a cached tree with the
+	// "insignificant" white space removed renders differently
+	"<mjml><mj-body><mj-section><mj-column><mj-button href=\"u\"><b>Buy</b> <i>now</i></mj-button><mj-navbar><mj-navbar-link href=\"/a\"><span>A</span>\n<span>B</span></mj-navbar-link></mj-navbar>" +
+		"<mj-social><mj-social-element name=\"facebook\" href=\"h\"><b>x</b> <b>y</b></mj-social-element></mj-social><mj-accordion><mj-accordion-element><mj-accordion-title><i>T</i> <i>U</i></mj-accordion-title>" +
+		"<mj-accordion-text><span>one</span>\n  <span>two</span></mj-accordion-text></mj-accordion-element></mj-accordion></mj-column></mj-section></mj-body></mjml>",
 }
 
-const cacheOkBits = "110111111111"
+const cacheOkBits = "1101111111111"
 
 // headReadingDoc: index of the document whose head the renderer reads while rendering
 const headReadingDoc = 8
@@ -349,7 +355,7 @@ func (h cacheHist) all() []string { return append(append([]string{}, h.prefix...
 // compareCache runs one history on the model and on the implementation.
 func compareCache(drv *DriverPool, h cacheHist, res *Result, prop string, checkC14 bool) {
 	ops := h.all()
-	hs := "0,1,2,3,4,5,6,7,8,9,10,11"
+	hs := "0,1,2,3,4,5,6,7,8,9,10,11,12"
 	if h.hashes != nil {
 		var p []string
 		for _, x := range h.hashes {
@@ -391,7 +397,7 @@ func compareCache(drv *DriverPool, h cacheHist, res *Result, prop string, checkC
 	res.Programs++
 	res.DisagreementsChecked += len(ops)
 	res.mu.Unlock()
-	in := map[string]interface{}{"ops": ops, "hashes": h.hashes, "docs": "cacheDocs (A, B, unparsable, invalid-attribute, same behind two blank lines, A + trailing whitespace, raw content over several lines with LF / with CRLF line ends, head-reading document, three documents differing only in bytes that are not valid UTF-8 / the replacement character)"}
+	in := map[string]interface{}{"ops": ops, "hashes": h.hashes, "docs": "cacheDocs (A, B, unparsable, invalid-attribute, same behind two blank lines, A + trailing whitespace, raw content over several lines with LF / with CRLF line ends, head-reading document, three documents differing only in bytes that are not valid UTF-8 / the replacement character, inline content with white space only between inline elements)"}
 	if crash != "" || len(obs) != len(ops) {
 		// a crash is an implementation failure: no configuration or history may take the process down (C14/C13)
 		res.Violate(Violation{Sig: "process-crash|" + canonHist(h), Kind: "history", What: "cache history crashed or hung the process: " + crash, Input: in})
@@ -599,7 +605,7 @@ func cacheHistories(tier string, seed int64, withConfigs bool) []cacheHist {
 			if fast {
 				o = r.Pick(append(falpha, "rc0", "rc1", "rc3"))
 			} else {
-				o = r.Pick(append(alpha, "rc0", "rc1", "rc0", "rc8", "rc8", "ru8", "rcd0", "rcd8", "rud0", "rcd1", "rc6", "rc7", "rc7", "ru6", "rc9", "rc10", "rc11"))
+				o = r.Pick(append(alpha, "rc0", "rc1", "rc0", "rc8", "rc8", "ru8", "rcd0", "rcd8", "rud0", "rcd1", "rc6", "rc7", "rc7", "ru6", "rc9", "rc10", "rc11", "rc12", "rc12"))
 			}
 			h.ops = append(h.ops, o)
 			if fast && o != "s" {
@@ -655,6 +661,18 @@ func lifecycleHistories() []cacheHist {
 	} {
 		hs = append(hs, cacheHist{ops: ops})
 	}
+	// the first setter calls made after a stop: the cleaner that the next cached compilation starts sweeps at the configured
+	// interval (a tick is awaited: expired entries must be gone), also when only one of the two is configured
+	{
+		ahour := fmt.Sprintf("a%d", nsHour)
+		for _, ops := range [][]string{
+			{"rc0", "s", I, T, "rc1", "t", ahour, "t", "rc1", "t"},
+			{"rc0", "rc1", "s", I, "rc0", "t", "a300000000000", "t", "rc0"},
+			{"ru0", "rc0", "s", "s", I, T, "rc0", "rc1", "t", ahour, "t", "s", "rc1", "t", ahour, "t"},
+		} {
+			hs = append(hs, cacheHist{ops: ops, fast: true})
+		}
+	}
 	// the first setter call made late — after cached compilations, while a cleaner is running: entries stored from then on
 	// live for the configured time (shorter and longer than the default), entries stored before keep their expiry
 	min1, min2, min4, min6, min30, min45, min90 := "a60000000000", "a120000000000", "a240000000000", "a360000000000", "a1800000000000", "a2700000000000", "a5400000000000"
@@ -684,7 +702,7 @@ func cfgOps(ttl int64) []string {
 
 func runCacheProp(prop string) runFn {
 	return func(res *Result, tier string, seed int64, replay string) {
-		res.Rule = "histories over {cached render of A / A' (one byte differs) / unparsable / invalid-attribute doc / the same behind blank lines / A with trailing whitespace / a document with mj-class, mj-attributes, inline style and an invalid attribute after valid ones / documents that differ only in bytes that are not valid UTF-8 (in a comment inside mj-raw) or have the replacement character there, uncached render, advance TTL/2, advance TTL, stop}; compilations with debug tags on and off over one cached tree (in every order, across expiry and stop / restart); exhaustive to length 4 (quick) or 5 (thorough); fast-sweep family (1 ms interval, tick after every step) exhaustive to length 3; seeded random histories up to length 25 (quick) / 125 (thorough); configuration calls made late (while a cleaner runs, after a stop); C14 adds the TTL×interval boundary matrix in both setter orders, a timed survive-the-sweep scenario and a volume scenario (5 000 and 20 000 templates expiring together must be gone two sweeps later). C13 also replays model-guided schedules of concurrent cached compilations against the concurrent cache Model (driver `cc`: goroutines parked at the yield points of parseAST and singleflightDo, evictions and the passing of time interleaved; position after every step, result and cache contents compared). Each history runs in a FRESH process (hx cachechild) and on the Lean Model (driver `cache`); per op: outcome vs uncached compilation, parser calls, cache size, cleaner registered, effective config, cleanup goroutines started/exited. Non-trivial = history with at least one cached compilation; distinct by op list"
+		res.Rule = "histories over {cached render of A / A' (one byte differs) / unparsable / invalid-attribute doc / the same behind blank lines / A with trailing whitespace / a document with mj-class, mj-attributes, inline style and an invalid attribute after valid ones / documents that differ only in bytes that are not valid UTF-8 (in a comment inside mj-raw) or have the replacement character there, uncached render, advance TTL/2, advance TTL, stop}; compilations with debug tags on and off over one cached tree (in every order, across expiry and stop / restart); exhaustive to length 4 (quick) or 5 (thorough); fast-sweep family (1 ms interval, tick after every step) exhaustive to length 3; seeded random histories up to length 25 (quick) / 125 (thorough); configuration calls made late (while a cleaner runs; after a stop, with a tick of the restarted cleaner awaited); C14 adds the TTL×interval boundary matrix in both setter orders, a timed survive-the-sweep scenario and a volume scenario (5 000 and 20 000 templates expiring together must be gone two sweeps later). C13 also replays model-guided schedules of concurrent cached compilations against the concurrent cache Model (driver `cc`: goroutines parked at the yield points of parseAST and singleflightDo, evictions and the passing of time interleaved; position after every step, result and cache contents compared). Each history runs in a FRESH process (hx cachechild) and on the Lean Model (driver `cache`); per op: outcome vs uncached compilation, parser calls, cache size, cleaner registered, effective config, cleanup goroutines started/exited. Non-trivial = history with at least one cached compilation; distinct by op list"
 		drv, err := startDriverPool(8)
 		if err != nil {
 			res.Disagree(Violation{Sig: "driver-missing", Kind: "history", What: err.Error()})
@@ -717,13 +735,14 @@ func runCacheProp(prop string) runFn {
 			// the head-reading document: cached again and again, next to uncached compilations of itself and of others
 			for _, ops := range [][]string{{"rc8", "rc8"}, {"rc8", "rc8", "rc8"}, {"ru8", "rc8", "rc8", "ru8"}, {"rc8", "rc0", "rc8", "rc3", "rc8"}, {"rc8", "s", "rc8", "rc8"},
 				{"rc6", "rc7", "rc6", "rc7"}, {"rc7", "rc6"}, {"rc6", "ru7", "rc7", "rc6"}, {"rc7", "s", "rc6", "rc7"},
-				{"rc9", "rc10", "rc9", "rc10"}, {"rc10", "rc9", "rc11", "rc10"}, {"rc11", "rc9", "ru10", "rc10", "rc11"}, {"rc9", "s", "rc10", "rc11", "rc9"}} {
+				{"rc9", "rc10", "rc9", "rc10"}, {"rc10", "rc9", "rc11", "rc10"}, {"rc11", "rc9", "ru10", "rc10", "rc11"}, {"rc9", "s", "rc10", "rc11", "rc9"},
+				{"rc12", "rc12", "ru12", "rc12"}, {"ru12", "rc12", "s", "rc12"}, {"rcd12", "rc12", "rcd12"}} {
 				hs = append(hs, cacheHist{ops: ops})
 			}
 			// forced hash collisions: the recorded finding C13-F1, and near misses that must not collide
 			if prop == "C13" {
-				hs = append(hs, cacheHist{ops: []string{"rc0", "rc1"}, hashes: []uint64{7, 7, 8, 9, 10, 11, 12, 13, 14, 15, 16, 17}})
-				hs = append(hs, cacheHist{ops: []string{"rc0", "rc1", "rc0"}, hashes: []uint64{7, 8, 9, 10, 11, 12, 13, 14, 15, 16, 17, 18}})
+				hs = append(hs, cacheHist{ops: []string{"rc0", "rc1"}, hashes: []uint64{7, 7, 8, 9, 10, 11, 12, 13, 14, 15, 16, 17, 18}})
+				hs = append(hs, cacheHist{ops: []string{"rc0", "rc1", "rc0"}, hashes: []uint64{7, 8, 9, 10, 11, 12, 13, 14, 15, 16, 17, 18, 19}})
 			}
 		}
 		res.Exhaustive = false
